@@ -229,6 +229,9 @@ func c07Loaders(maxLen int) *core.Space {
 }
 
 // (d) addresses
+// c07LastAlloc: bytes allocated by the measured call of the current case (0 = not measured)
+var c07LastAlloc int64
+
 func c07Addresses() *core.Space {
 	names := []string{"", "a", "a.b", "a..b", ".", "0", "00", "-1", "-0", "a.-1", "+1", "0x1", "1025", "9999999999", "99999999999999999999", "[a]", "[", "a.[b].c", "l", "l.0", "l.5", "p", "p.x", "d.l.1"}
 	idxs := []int{math.MinInt64, -2, -1, 0, 1, 2, 1024, 1025, 1 << 20, 1 << 40, math.MaxInt32, math.MaxInt64}
@@ -268,6 +271,19 @@ func c07Addresses() *core.Space {
 		{"SetChild(nil)", func(c *ucfg.Config, n string, i int, o []ucfg.Option) { c.SetChild(n, i, nil, o...) }},
 		{"SetChild(zero Config)", func(c *ucfg.Config, n string, i int, o []ucfg.Option) { c.SetChild(n, i, &ucfg.Config{}, o...) }},
 		{"Merge(key)", func(c *ucfg.Config, n string, i int, o []ucfg.Option) { c.Merge(M{n: i}, o...) }},
+		{"Merge under FieldAppendValues(key.idx)", func(c *ucfg.Config, n string, i int, o []ucfg.Option) {
+			// the option path is rendered into a tree of its own: a numeric component may not
+			// allocate more slots there than the maximum index (given before it) allows either
+			path := fmt.Sprint(i)
+			if n != "" {
+				path = fmt.Sprintf("%s.%d", n, i)
+			}
+			var m0, m1 runtime.MemStats
+			runtime.ReadMemStats(&m0)
+			c.Merge(M{"a": L{1}}, append(append([]ucfg.Option{}, o...), ucfg.FieldAppendValues(path))...)
+			runtime.ReadMemStats(&m1)
+			c07LastAlloc = int64(m1.TotalAlloc - m0.TotalAlloc)
+		}},
 		{"NewFrom(key)", func(c *ucfg.Config, n string, i int, o []ucfg.Option) {
 			if nc, err := ucfg.NewFrom(M{n: M{n: i}}, o...); err == nil {
 				var m map[string]interface{}
@@ -286,6 +302,7 @@ func c07Addresses() *core.Space {
 		Exec: func(i int) core.Result {
 			d := mixedRadix(i, radices...)
 			var tooLong int
+			c07LastAlloc = 0
 			r := c07Wrap("address "+ops[d[0]].Name, func() {
 				c := bases[d[4]]()
 				ops[d[0]].Do(c, names[d[1]], idxs[d[2]], optSets[d[3]])
@@ -300,6 +317,11 @@ func c07Addresses() *core.Space {
 			})
 			if r.Viol == nil && tooLong > 0 {
 				return core.Fail("address", "ALLOC@"+ops[d[0]].Name, fmt.Sprintf("a list of %d slots was allocated, the maximum index allows %d", tooLong, maxIdxOf[d[3]]+1))
+			}
+			// (a slot of the option tree costs about 160 bytes; everything else of the call stays far below 64 KiB)
+			// (judged under the small maximum index only: up to the default limit the tree may grow)
+			if limit := int64(64<<10) + 200*(maxIdxOf[d[3]]+1); r.Viol == nil && maxIdxOf[d[3]] < 1024 && c07LastAlloc > limit {
+				return core.Fail("address", "ALLOC@"+ops[d[0]].Name, fmt.Sprintf("the call allocated %d bytes: more list slots than the maximum index %d allows (limit for this check %d bytes)", c07LastAlloc, maxIdxOf[d[3]], limit))
 			}
 			return r
 		},
